@@ -55,6 +55,34 @@ SINGLE_CONSTRUCT = {
     "pub_b.proto": _pkg("geo", "message Facade { int32 v = 1; int32 mk20038 = 20038; }\n", 'import public "pub_c.proto";\n'),
     "pub_a.proto": _pkg("app", "message Route { geo.shapes.Point p = 1; repeated geo.shapes.Point r = 2; map<string, geo.shapes.Point> m = 3; geo.shapes.Unit u = 4; geo.Facade f = 5; int32 mk20039 = 20039; }\n"
                         "service Nav { rpc Go (geo.shapes.Point) returns (geo.Facade); }\n", 'import "pub_b.proto";\n'),
+    # round 8: a field named like the import alias of the child package its type comes from; nested types whose own name
+    # is a Python keyword once pascal-cased; a foreign type called like the holder's synthetic map-entry type; two maps
+    # named x and <prefix>_x; Timestamp / Duration ONLY as map values; deprecated fields / values / messages; aliases
+    # with the earlier name deprecated; enum value names with leading / trailing underscores
+    "alias_child.proto": _pkg("shopx.item", "message Item { int32 a = 1; int32 mk20050 = 20050; }\nenum Kind { KIND_ZERO = 0; KIND_MK = 20051; }\n"),
+    "alias_parent.proto": _pkg("shopx", "message Order { int32 id = 1; shopx.item.Item item = 2; repeated shopx.item.Item items = 3; shopx.item.Kind kind = 4; int32 mk20052 = 20052; }\n"
+                               "message Cart { map<string, shopx.item.Item> item = 1; int32 mk20053 = 20053; }\n", 'import "alias_child.proto";\n'),
+    "nested_keywords.proto": _pkg("nested_keywords", "message Outer { message None { int32 a = 1; int32 mk20054 = 20054; } enum True { TRUE_ZERO = 0; TRUE_MK = 20055; } message false { int32 b = 1; int32 mk20056 = 20056; } "
+                                  "None n = 1; True t = 2; false f = 3; repeated None rn = 4; map<string, false> mf = 5; oneof pick { None pn = 6; True pt = 7; } int32 mk20057 = 20057; }\n"
+                                  "message User { Outer.None n = 1; Outer.True t = 2; optional Outer.false f = 3; int32 mk20058 = 20058; }\nservice KW { rpc Get (Outer.None) returns (Outer.false); }\n"),
+    "entry_store.proto": _pkg("entry_store", "message LogEntry { string text = 1; int32 mk20059 = 20059; }\nmessage AttrsEntry { int32 k = 1; int32 mk20060 = 20060; }\n"),
+    "entry_holder.proto": _pkg("entry_holder", "message Journal { map<string, int64> log = 1; repeated entry_store.LogEntry recent = 2; entry_store.LogEntry last = 3; map<int32, bool> attrs = 4; "
+                               "oneof pick { entry_store.AttrsEntry chosen = 5; int32 none_chosen = 6; } int32 mk20061 = 20061; }\n", 'import "entry_store.proto";\n'),
+    "map_prefix_names.proto": _pkg("map_prefix_names", "message Stats { map<string, sint64> delta = 1; map<string, uint64> total_delta = 2; map<int32, string> x = 3; map<uint64, bytes> big_x = 4; "
+                                   "map<string, fixed32> count = 5; map<string, double> re_count = 6; int32 mk20062 = 20062; }\n"),
+    "times_only_in_maps.proto": _pkg("times_only_in_maps", "message M { map<string, google.protobuf.Timestamp> at = 1; int32 mk20063 = 20063; }\n", 'import "google/protobuf/timestamp.proto";\n'),
+    "spans_only_in_maps.proto": _pkg("spans_only_in_maps", "message M { map<int32, google.protobuf.Duration> took = 1; int32 mk20064 = 20064; }\n", 'import "google/protobuf/duration.proto";\n'),
+    "deprecated_parts.proto": _pkg("deprecated_parts", "message M { int32 a = 1 [deprecated = true]; string b = 2; repeated int32 c = 3 [deprecated = true]; M d = 4 [deprecated = true]; "
+                                   "oneof pick { int32 e = 5 [deprecated = true]; string f = 6; } optional int32 g = 7 [deprecated = true]; map<string, int32> h = 8 [deprecated = true]; int32 mk20065 = 20065; }\n"
+                                   "message Old { option deprecated = true; int32 a = 1; int32 mk20066 = 20066; }\n"
+                                   "enum State { option allow_alias = true; STATE_ZERO = 0; STATE_STARTED = 1 [deprecated = true]; STATE_RUNNING = 1; STATE_DONE = 2; STATE_FINISHED = 2 [deprecated = true]; STATE_MK = 20067; }\n"
+                                   "enum Edge { _UNKNOWN = 0; RESERVED_ = 1; _BOTH_ = 2; EDGE_MK = 20068; }\n"
+                                   "service Dep { rpc Gone (M) returns (Old) { option deprecated = true; } }\n"),
+    # two files of one package on both sides of a file of its parent package (the .proto import graph is acyclic, the
+    # generated Python packages import each other)
+    "mutual_child.proto": _pkg("rtop.sub", "message Leaf { int32 a = 1; int32 mk20069 = 20069; }\n"),
+    "mutual_parent.proto": _pkg("rtop", "message Top { rtop.sub.Leaf leaf = 1; int32 mk20070 = 20070; }\n", 'import "mutual_child.proto";\n'),
+    "mutual_child2.proto": _pkg("rtop.sub", "message Back { rtop.Top top = 1; Leaf leaf = 2; int32 mk20071 = 20071; }\n", 'import "mutual_parent.proto";\nimport "mutual_child.proto";\n'),
     "oneof_nested_msg.proto": _pkg("oneof_nested_msg", "message M { message In { oneof a { int32 x = 1; } oneof b { int32 y = 2; } int32 mk20024 = 20024; } In in_ = 1; int32 mk20025 = 20025; }\n"),
 }
 
